@@ -18,6 +18,13 @@ pub fn in_shuttle() -> bool {
     )
 }
 
+/// True (once) if, since the last call, a simulated thread had to be switched out while a panic
+/// was unwinding in it (vendored engine, `maybe_yield`): that execution is not a faithful
+/// simulation, because `std::thread::panicking()` is shared by all simulated threads.
+pub fn blocked_while_panicking() -> bool {
+    shuttle_engine::runtime::execution::BLOCKED_WHILE_PANICKING.swap(false, std::sync::atomic::Ordering::Relaxed)
+}
+
 /// A lazy static cell: shuttle's scheduler-controlled `Lazy` inside an execution, a plain
 /// `std::sync::OnceLock` outside.
 pub struct Lazy<T: Sync + 'static> {
@@ -154,6 +161,15 @@ pub mod vsync {
             });
             self.stored().expect("OnceLock initialised")
         }
+        /// (`once_cell`'s name; unstable in std) - `f` may run in more than one thread if they
+        /// race for the first use, the first value stored wins
+        pub fn get_or_try_init<E, F: FnOnce() -> Result<T, E>>(&self, f: F) -> Result<&T, E> {
+            if let Some(v) = self.get() {
+                return Ok(v);
+            }
+            let v = f()?;
+            Ok(self.get_or_init(|| v))
+        }
         pub fn set(&self, value: T) -> Result<(), T> {
             if !crate::in_shuttle() {
                 return self.real.set(value);
@@ -201,6 +217,12 @@ pub mod vsync {
             LazyLock::force(self)
         }
     }
+}
+
+/// Drop-in for `once_cell::sync` in the instrumented build.
+pub mod vonce {
+    pub type Lazy<T, F = fn() -> T> = super::vsync::LazyLock<T, F>;
+    pub type OnceCell<T> = super::vsync::OnceLock<T>;
 }
 
 /// Drop-in for `std::thread`.
